@@ -117,6 +117,16 @@ def run(chk, build, replay=None):
     ]
     names = list(GUARDED)
     progs = [PRELUDE + GUARDED[n] + "\n" for n in names]
+    # the same statement forms as the body of a function (targets are locals), of a method-less class body (targets are
+    # class members) and of a function whose locals are captured by a closure (targets live in the nonlocal dictionary)
+    ind = lambda t: "\n".join("    " + l for l in t.split("\n"))
+    for n in list(GUARDED):
+        t = GUARDED[n]
+        names.append(n + "@function"); progs.append(PRELUDE + "def w_():\n" + ind(t) + "\nw_()\n")
+        names.append(n + "@class"); progs.append(PRELUDE + "class W_:\n" + ind(t) + "\n")
+        if not n.startswith("aug_name_") or n in ("aug_name_+", "aug_name_**"):
+            names.append(n + "@captured")
+            progs.append(PRELUDE + "def w_():\n" + ind(t) + "\n    def peek_():\n        return (x, a, b, c, d, f)\n    return peek_\nw_()\n")
     replayed = propkit.load_replay_sources(replay)
     if replayed:
         progs, names = replayed, ["replay"] * len(replayed)
